@@ -12,6 +12,15 @@ fn main() {
     if let Ok(only) = env::var("KV_ONLY") {
         let keep: Vec<&str> = only.split(',').collect();
         ids.retain(|i| keep.contains(&i.as_str()));
+    } else {
+        // modules still under construction are left out: a property is built in once its
+        // props/Cxx.json says "integrated": true
+        let props = Path::new("/verif/props");
+        ids.retain(|i| {
+            fs::read_to_string(props.join(format!("{}.json", i.to_uppercase())))
+                .map(|t| t.contains("\"integrated\": true"))
+                .unwrap_or(false)
+        });
     }
     ids.sort();
     let mut out = String::new();
@@ -25,5 +34,6 @@ fn main() {
     out.push_str("]\n}\n");
     fs::write(Path::new(&env::var("OUT_DIR").unwrap()).join("mods.rs"), out).unwrap();
     println!("cargo:rerun-if-changed=src");
+    println!("cargo:rerun-if-changed=/verif/props");
     println!("cargo:rerun-if-env-changed=KV_ONLY");
 }
